@@ -222,7 +222,7 @@ def jobs(tier):
     out.append(dict(name='roundtrip-coinbase', family='roundtrip', fn='roundtrip', args=(1, 1, True), loop_bound=60, max_depth=50,
                     cost=30, bounds=dict(inputs='1 coinbase (null previous hash)', outputs=1), must_reach=('ok',)))
     for a, b, items in ([(1, 1, 1), (1, 1, 2), (2, 1, 1), (1, 2, 1)] if tier == 'quick' else
-                        [(1, 1, 0), (1, 1, 1), (1, 1, 2), (2, 1, 1), (1, 2, 1), (2, 2, 2), (3, 1, 1), (1, 3, 1)]):
+                        [(1, 1, 0), (1, 1, 1), (1, 1, 2), (2, 1, 1), (1, 2, 1), (2, 2, 1), (3, 1, 1), (1, 3, 1)]):
         out.append(dict(name=f'segwit-{a}in-{b}out-{items}items', family='segwit', fn='segwit', args=(a, b, items), loop_bound=60,
                         max_depth=50, cost=20 * 3 ** (a + b + items),
                         bounds=dict(inputs=a, outputs=b, witness_items_per_input=items, flag='1..255'), must_reach=('ok',)))
